@@ -97,6 +97,12 @@ def render1(n, ind):
     if t == "call":
         _, name, tag = n
         return "%sdef r%d = %s();\n%sappend(log, [%d, r%d])" % (ind, tag, name, ind, tag, tag)
+    if t == "fun1":
+        _, name, body = n
+        return "%sdef %s(p, q = 0) do\n%s\n%send" % (ind, name, render(body, ind + "  "), ind)
+    if t == "call1":
+        _, name, arg, tag = n
+        return "%sdef r%d = %s(%s, q = %s);\n%sappend(log, [%d, r%d])" % (ind, tag, name, arg, arg, ind, tag, tag)
     if t == "if":
         _, branches, els = n
         s = ""
@@ -238,9 +244,12 @@ class Ref:
                 except Cnt:
                     continue
             return None
-        if t == "fun":
+        if t in ("fun", "fun1"):
             self.funs[n[1]] = n[2]
             return None
+        if t == "call1":
+            n = ("call", n[1], n[3])
+            t = "call"
         if t == "call":
             _, name, tag = n
             try:
